@@ -52,9 +52,9 @@ def run(chk, repo):
     chk.attempt(_t4_pending[0], chk, repo, L, _t4_pending[1], covered_by="adapter_values", rules=("C04-T4",))
     from ..shapes_rules import link_tables
     link_tables(chk, repo, L, "C04")
-    from .common_rules import parse_and_transform, to_dict_contract
+    from .common_rules import parse_and_transform, to_dict_contract, to_dict_rules
     chk.rule("C04-T6", "parsed containers reach the pipelines in the assumed shape (to_dict contract) and the leader is parsed with sar_leader_record and transformed by transform_metadata", 4)
-    to_dict_contract(chk, repo, "C04-T6")
+    to_dict_rules(chk, repo, "C04-T6")
     parse_and_transform(chk, repo, "C04-T6", "ceos_alos2.sar_leader.io", "sar_leader_record", "transform_metadata", "open_sar_leader")
     chk.attempt(opener_contents, chk, repo)
 
